@@ -418,7 +418,7 @@ class Buffer:
         """Implements next."""
         while self.__i >= len(self.__queue):
             self.__queue.append(self.__init(
-                next(self.__iterator), self.__i))
+                next(self.__iterator), len(self.__queue)))
         self.__i += 1
         return self.__queue[self.__i - 1]
 
